@@ -94,6 +94,24 @@ Definition oracle_c06 (code : Z) (ps : list Z) (vs outs : list (list Z)) : Z :=
   | 6005 => gadget_oracle true ps vs outs
   | 6006 => (* independent streams: no two cells / entries of a compressed composite object share a seed or a mask *)
       let f := v outs 1 in ob (Nat.eqb (length f) 2 && (fl f 0 =? 1) && (fl f 1 =? 1))
+  | 6007 | 6008 =>
+      (* the mask of a fresh scheme-layer ciphertext is the digit image of the MASK seed's stream, in stream order (column, limb,
+         coefficient); it does not move with the plaintext or the error seed; the body moves with the error seed *)
+      let b := p ps 2 in let nk := p ps 4 in let f := v outs 1 in
+      ob (Nat.eqb (length f) 5 && eqlz (v outs 0) (digits b (v vs 0))
+          && (fl f 0 =? 1) && (fl f 1 =? 1) && (fl f 2 =? 1)
+          && (errs_same_on_torus b nk (v vs 1) (v vs 3) || (fl f 3 =? 0))
+          && (eqlz (digits b (v vs 0)) (digits b (v vs 2)) || (fl f 4 =? 0)))
+  | 6009 =>
+      (* composite key generation: every cell's mask is the digit image of ITS part of the one mask-seed stream (segments, entries
+         and cells follow one another, no part used twice); nothing of the mask moves with the secrets or the error seed *)
+      let n := np ps 1 in let b := p ps 2 in let size := np ps 3 in let nk := p ps 4 in let f := v outs 1 in
+      let ms := kg_masks b n size (kg_segments ps) O (v vs 0) in
+      ob (Nat.eqb (length f) 6 && eqlz (v outs 0) (concat ms)
+          && (fl f 0 =? 1) && (fl f 1 =? 1) && (fl f 2 =? 1)
+          && (errs_same_on_torus b nk (v vs 1) (v vs 3) || (fl f 3 =? 0))
+          && (eqlz (digits b (v vs 0)) (digits b (v vs 2)) || (fl f 4 =? 0))
+          && (fl f 5 =? 1))
   | 6020 => stats_oracle (v outs 0)
   | _ => 2
   end.
